@@ -149,6 +149,18 @@ chk('C08', 'translation_validation',
     'z3 model-function equivalence for idempotence/reversibility of real feature setters + concrete detectors',
     'DESIGN.md section 3 C08', 'E2')
 
+chk('C09', 'translation_validation',
+    'The real extension functions are applied to corpus models and z3 decides for all numeric inputs: the extended '
+    'parameter equals op(old parameter, documented covariate-effect template) with the centring statistic recomputed from '
+    'the dataset by the harness; neutrality at the reference covariate value / eta = 0 / reference weight; IIV forms '
+    'add/prop/exp/log as documented; eta transformations neutral at eta = 0; error-model setters give Y = f + noise(f, '
+    'eps) of the named model and leave f unchanged; KA = 1/MAT, D1 = 2 MAT, transit rates n/MDT or (n+1)/MDT; removing '
+    'an extension restores the previous model function.',
+    'Trusted: templates written from the docstrings; lib/semeq.py; uninterpreted exp/log/pow with sound axioms and '
+    'numeric replay. IOV, time-varying/dtbs/weighted error models and BLQ are outside.',
+    'z3 identities between real extension results and documented formulas',
+    'DESIGN.md section 3 C09', 'E2')
+
 NA['C14'] = ('derivations are vectorised pandas pipelines (groupby/cumsum/explode/query); CrossHair realises at the '
              'first DataFrame call and no faithful SMT semantics of pandas exists here; solver-generated datasets '
              'would be sampling')
